@@ -249,6 +249,10 @@ def install(cobyqa):
 
     def mk_pb_call(orig):
         def __call__(self, x, penalty=0.0):
+            c0 = cur()
+            if c0 is not None and not c0.in_probe:
+                # the evaluation index that keys reply faults (independent of whether probes record)
+                c0.eval_idx += 1
             ctx = _active()
             if ctx is None:
                 return orig(self, x, penalty)
